@@ -105,9 +105,30 @@ Fixpoint once_per_batch (rs : list (tname * Z * Z)) : bool :=
       negb (existsb (fun x => let '(n', _, t') := x in Nat.eqb n n' && (t =? t')) rs') && once_per_batch rs'
   end.
 
+(* (5) never older: per tag, the recorded values can be matched to reports (same tag and value, report
+   time <= row time) whose engine times never decrease along the rows; the earliest admissible report
+   is chosen greedily, which finds a matching whenever one exists *)
+Definition min_opt (a : option Z) (b : Z) : option Z :=
+  match a with None => Some b | Some x => Some (Z.min x b) end.
+Fixpoint never_older (flat : list (tname * Z * Z)) (rs : list (tname * Z * Z)) (lows : list (tname * Z)) : bool :=
+  match rs with
+  | [] => true
+  | (n, v, t) :: rs' =>
+      let low := match find (fun x => Nat.eqb (fst x) n) lows with Some x => Some (snd x) | None => None end in
+      let cand := fold_left (fun acc m => let '(n', v', t') := m in
+                    if Nat.eqb n n' && (v =? v') && (t' <=? t)
+                       && match low with Some l => l <=? t' | None => true end
+                    then min_opt acc t' else acc) flat None in
+      match cand with
+      | None => false
+      | Some t' => never_older flat rs' ((n, t') :: lows)
+      end
+  end.
+
 Definition holds_b (i : input) (o : output) : bool :=
   let '(interval, entries, msgs) := i in
   let ts := batch_times (fst o) None in
+  never_older (concat msgs) (fst o) [] &&
   gaps_ok (match interval with Some iv => iv | None => 0 end) ts
   && (match interval with None => Nat.leb (length ts) 1 | Some _ => true end)
   && forallb (reported msgs) (fst o)
